@@ -1,4 +1,6 @@
+use crate::sdk::std::lib::alias::ALIAS_STATE_KEY;
 use crate::utils::pckg;
+use crate::utils::state::get_sub_state;
 use duckscript::types::command::{Command, CommandInvocationContext, CommandResult};
 
 #[cfg(test)]
@@ -32,6 +34,13 @@ impl Command for CommandImpl {
             CommandResult::Error("Invalid command name provided.".to_string())
         } else {
             let removed = context.commands.remove(&context.arguments[0]);
+
+            if removed {
+                // a removed command is no longer an alias that unalias may remove later
+                let sub_state = get_sub_state(ALIAS_STATE_KEY.to_string(), context.state);
+                sub_state.remove(&context.arguments[0]);
+            }
+
             CommandResult::Continue(Some(removed.to_string()))
         }
     }
